@@ -244,7 +244,10 @@ func GenErr(maxMsg int, odd bool) *rapid.Generator[ErrSpec] {
 			}
 		}
 		if rapid.IntRange(0, 5).Draw(t, "twirp") == 0 {
-			c := rapid.SampledFrom([]string{"not_found", "internal", "canceled", "weird_code", "", "with\nnl", "unauthenticated", "dataloss", "bad\r\nroute"}).Draw(t, "tcode")
+			c := rapid.SampledFrom([]string{"not_found", "internal", "canceled", "weird_code", "", "with\nnl", "unauthenticated", "dataloss", "bad\r\nroute",
+				// every code of the Twirp specification's status table
+				"unknown", "invalid_argument", "malformed", "deadline_exceeded", "bad_route", "already_exists", "permission_denied", "resource_exhausted",
+				"failed_precondition", "aborted", "out_of_range", "unimplemented", "unavailable"}).Draw(t, "tcode")
 			s.Twirp = &c
 		}
 		if odd && rapid.IntRange(0, 3).Draw(t, "odd") == 0 {
